@@ -150,7 +150,7 @@ PROPS = {
         "rule": "cases = forkable histories as in C01-C04 (hub-like hold-until-LIB configuration 2 times in 3, all steps delivered); after a third of the blocks: a canonical snapshot, 2 requests by number around the window, sometimes a with-forks request, and up to 3 resumptions from cursors delivered earlier (New, Undo, 1/3 of the Irreversible ones; biased to recent ones), a third of them also through-cursor from a start around/below the cursor block. distinct = sha1 of header+ops; non-trivial = some burst contains an Undo or an Irreversible event",
         "trusted_base": FORKABLE_TB,
         "technique": "Lean 4 model of blocksFromCursor/blocksThroughCursor + pure-consumer monitor (Lean): burst applied to the consumer state at the cursor must end on the hub's live chain + differential correspondence of every burst",
-        "level_text": "Props/C05 (kernel-checked): resume_new_cursor_on_hub_chain — state level: for every hub state satisfying the forkable invariant (pending chain P) and every New cursor whose block and LIB are retained on the hub's chain (cursor LIB not above the hub LIB), the hub serves the cursor and the burst takes the consumer that stood at the cursor exactly onto the hub's own consumer state <LIB, P>; with C01's history theorem everything delivered afterwards continues the discipline; non-vacuity example by kernel evaluation. On an abstract chain: burst_takes_consumer_to_hub_chain — for a New cursor whose block and LIB lie on the hub's retained canonical chain, the burst applied to the consumer that stood at the cursor (resting on the cursor LIB, holding the canonical blocks up to the cursor block) ends exactly on the hub's current chain and final block: finalised pending blocks are announced oldest first, missed final blocks arrive new-and-irreversible, missed reversible blocks as New, nothing twice (the chain above the cursor LIB is split by height into four zones; the consumer semantics CS is the one of C01 extended with new-and-irreversible events). Also: nothing_at_or_below_cursor_lib, everything_above_cursor_block, fastPath_in_chain_order, nothing_new_below_cursor_block, final_events_exact (a final-only consumer gets exactly the canonical final blocks above the cursor LIB), refused_below_window / refused_without_chain (no source rather than a partial one), fork_cursor_shape (cursor on a fork: undo walk, newest first, all naming the junction, then the burst of the junction cursor). For Undo cursors and cursors on forks the consumer-level statement is decided by the Lean consumer-at-cursor monitor over every burst of the correspondence suite.",
+        "level_text": "Props/C05 (kernel-checked): resume_new_cursor_on_hub_chain — state level: for every hub state satisfying the forkable invariant (pending chain P) and every New cursor whose block and LIB are retained on the hub's chain (cursor LIB not above the hub LIB), the hub serves the cursor and the burst takes the consumer that stood at the cursor exactly onto the hub's own consumer state <LIB, P>; resume_undo_cursor_on_hub_chain — the same for an Undo cursor whose block is canonical again; resume_fork_cursor_on_hub — for a cursor on a forked-out block that the hub serves: undo walk to the junction, then as the New cursor on the junction; resume_equals_never_disconnected — with C01's history theorem everything delivered afterwards continues the discipline; non-vacuity examples by kernel evaluation. On an abstract chain: burst_takes_consumer_to_hub_chain — for a New cursor whose block and LIB lie on the hub's retained canonical chain, the burst applied to the consumer that stood at the cursor (resting on the cursor LIB, holding the canonical blocks up to the cursor block) ends exactly on the hub's current chain and final block: finalised pending blocks are announced oldest first, missed final blocks arrive new-and-irreversible, missed reversible blocks as New, nothing twice (the chain above the cursor LIB is split by height into four zones; the consumer semantics CS is the one of C01 extended with new-and-irreversible events). Also: nothing_at_or_below_cursor_lib, everything_above_cursor_block, fastPath_in_chain_order, nothing_new_below_cursor_block, final_events_exact (a final-only consumer gets exactly the canonical final blocks above the cursor LIB), refused_below_window / refused_without_chain (no source rather than a partial one), fork_cursor_shape (cursor on a fork: undo walk, newest first, all naming the junction, then the burst of the junction cursor). For Undo cursors and cursors on forks the consumer-level statement is decided by the Lean consumer-at-cursor monitor over every burst of the correspondence suite.",
         "level_note": LEVEL_NOTE_COMMON, "explanation": "kernel-checked theorems about the burst functions for all inputs + a Lean pure-consumer monitor evaluated on the implementation's bursts (2500/30000 histories with up to 3 resumptions each) + differential comparison of every burst with the model",
     },
     "C06": {
